@@ -171,3 +171,18 @@ Theorem C17_content_of_text_canvas :
   = map (fun r => (r, O)) (content_text ha va W H w h (ti_lines render) tl tt cols rows).
 Proof. exact content_of_text_canvas. Qed.
 Print Assumptions C17_content_of_text_canvas.
+
+(** Flow widgets in EVERY environment.  [_valid_size] is a function of the environment
+    current at each call (global cell ratio, cell size, terminal size) — a parameter here.
+    Called in the same environment [e], [rows((maxcol,))] announces exactly the number of
+    rows of the canvas [render((maxcol,))] builds, the image is as high as that canvas and
+    not wider.  (An ORIGINAL size remembered from another environment breaks this:
+    [TrimSnapshot.stale_original_size_refuted].) *)
+Theorem C17_rows_agree_in_every_environment :
+  forall (env : Type) (valid_size : env -> option Z -> Z * Z) e upscale maxcol,
+  rows_in env valid_size e upscale maxcol = snd (flow_canvas_in env valid_size e upscale maxcol)
+  /\ snd (flow_image_in env valid_size e upscale maxcol) = snd (flow_canvas_in env valid_size e upscale maxcol)
+  /\ (fst (valid_size e (Some maxcol)) = maxcol ->
+      fst (flow_image_in env valid_size e upscale maxcol) <= fst (flow_canvas_in env valid_size e upscale maxcol)).
+Proof. exact rows_agree_in. Qed.
+Print Assumptions C17_rows_agree_in_every_environment.
